@@ -1,9 +1,11 @@
 """C10 — Tree addressing is a bijection and node resolution is order-independent.
 
 Theorems: lean/Tranp/Props/C10.lean over lean/Tranp/Model/AstPath.lean.
-Tie: correspondence streams `tree-random` (EntryOfDict trees + synthetic node classes) and `tree-real`
-(lark parse trees of real modules) between the real ASTFinder / EntryCache / Nodes / NodeResolver and the model.
-Search: the laws themselves on the real code (independent tree walk as oracle, query permutations).
+Tie: correspondence streams `tree-corpus` (witnesses of the expand counterexample theorems), `tree-random` (EntryOfDict
+trees + synthetic node classes) and `tree-real` (lark parse trees of real modules) between the real ASTFinder /
+EntryCache / Nodes (by, parent, ancestor, siblings, children, expand, values, group_by) / NodeResolver and the model.
+Search: the laws themselves on the real code (independent tree walk as oracle, query permutations, expand / values /
+group_by against the tree on random trees and — without depth cap — on every entry path of real parse trees).
 """
 from __future__ import annotations
 
@@ -146,6 +148,63 @@ def mutate_path(rng: random.Random, p: str, all_tags: list[str]) -> str:
 	return '.'.join(e for e in elems if e != '') or 'root'
 
 
+def tag_of(el: str) -> str:
+	return el.split('[')[0]
+
+
+def ideal_expand(via: str, paths: list[str], has_child: Any, resolvable: Any, cap: int | None = None) -> list[str]:
+	"""What `Nodes.expand(via)` means on the tree, computed from the document-order path list alone: the entries below
+	`via` that have no resolvable proper ancestor below `via` and are resolvable themselves or terminals (`cap`: only
+	the first `cap` levels below `via`, as the Python's `group_by(via, depth=3)`)."""
+	out = []
+	n = len(via.split('.'))
+	pre = via + '.'
+	for p in paths:
+		if not p.startswith(pre):
+			continue
+		rel = p.split('.')[n:]
+		if cap is not None and len(rel) > cap:
+			continue
+		if any(resolvable(tag_of(e)) for e in rel[:-1]):
+			continue
+		if resolvable(tag_of(rel[-1])) or not has_child(p):
+			out.append(p)
+	return out
+
+
+def expand_safety(nodes: Any, via: str) -> tuple[bool, bool, bool]:
+	"""The three side conditions of `C10.expand_spec` / `expand_spec_full`, re-computed on the real objects:
+	PrefixSafe, RelativefySafe, and "nothing expandable deeper than three levels"."""
+	from rogw.tranp.syntax.ast.path import EntryPath
+	cache = nodes._Nodes__entries
+	resolver = nodes._Nodes__resolver
+	under = cache.group_by(via, 3)
+	keys = list(under.keys())
+	prefix_safe = True
+	for r in keys:
+		if not resolver.can_resolve(EntryPath(r).last_tag):
+			continue
+		re_ = r.split('.')
+		for p in keys:
+			if p.startswith(r) and p.split('.')[:len(re_)] != re_:
+				prefix_safe = False
+	n = len(via.split('.'))
+	rel_safe = True
+	for p in keys[1:]:
+		if under[p].has_child:
+			continue
+		try:
+			got = EntryPath(p).relativefy(via).de_identify().elements
+		except Exception:  # noqa: BLE001
+			got = None
+		if got != [tag_of(e) for e in p.split('.')[n:]]:
+			rel_safe = False
+	all_paths = list(cache.group_by(via).keys())
+	has_child = lambda p: cache.by(p).has_child
+	depth_safe = ideal_expand(via, all_paths, has_child, resolver.can_resolve, 3) == ideal_expand(via, all_paths, has_child, resolver.can_resolve)
+	return prefix_safe, rel_safe, depth_safe
+
+
 def real_op(finder: Any, nodes: Any, root: Any, pf: dict[str, Any], op: list[str], with_class: bool) -> str:
 	try:
 		kind = op[0]
@@ -159,9 +218,18 @@ def real_op(finder: Any, nodes: Any, root: Any, pf: dict[str, Any], op: list[str
 			return str(nodes.id(op[1]))
 		if kind == 'exists':
 			return 'true' if nodes.exists(op[1]) else 'false'
+		if kind == 'values':
+			return 'ok ' + ','.join(hx(v) for v in nodes.values(op[1]))
+		if kind == 'groupby':
+			return 'ok ' + ','.join(nodes._Nodes__entries.group_by(op[1], int(op[2])).keys())
+		if kind == 'expandsafe':
+			a, b, c = expand_safety(nodes, op[1])
+			return f'ok {str(a).lower()} {str(b).lower()} {str(c).lower()}'
 		fmt = (lambda n: f'{n.full_path}:{type(n).__name__}') if with_class and not kind.endswith('p') else (lambda n: n.full_path)
 		if kind in ('children', 'childrenp'):
 			return 'ok ' + ','.join(fmt(n) for n in nodes.children(op[1]))
+		if kind in ('expand', 'expandp'):
+			return 'ok ' + ','.join(fmt(n) for n in nodes.expand(op[1]))
 		if kind in ('siblings', 'siblingsp'):
 			return 'ok ' + ','.join(fmt(n) for n in nodes.siblings(op[1]))
 		if kind in ('parent', 'parentp'):
@@ -206,13 +274,21 @@ def case_random(rng: random.Random, max_depth: int, max_width: int) -> tuple[dic
 		ops.append(['id', p])
 		ops.append(['exists', p])
 	ops.append(['id', mutate_path(rng, rng.choice(paths), tags)])
-	kinds = ['children', 'siblings', 'parent', 'by', 'ancestor', 'by', 'by']
-	for _ in range(30):
+	kinds = ['children', 'siblings', 'parent', 'by', 'ancestor', 'by', 'by', 'expand', 'expandp', 'values', 'groupby', 'expandsafe', 'expandp']
+	for _ in range(44):
 		k = rng.choice(kinds)
+		if k == 'expandp' and not fallback:
+			k = 'expand'  # the real expand always resolves its result; without a fallback class that can raise UnresolvedNode
 		p = rng.choice(paths) if rng.random() < 0.85 else mutate_path(rng, rng.choice(paths), tags)
 		if k == 'ancestor':
 			elems = [e.split('[')[0] for e in p.split('.')]
 			ops.append([k, p, rng.choice(elems) if rng.random() < 0.8 else rng.choice(tags)])
+		elif k == 'groupby':
+			ops.append([k, p, str(rng.choice([-1, 0, 1, 2, 3, 3, 5, -2]))])
+		elif k in ('expand', 'expandp', 'expandsafe') and rng.random() < 0.5:
+			# the root and the big inner entries are where the depth cap and the record list matter
+			inner = [q for q in paths if pf[q].has_child]
+			ops.append([k, rng.choice(inner[:6]) if inner else p])
 		else:
 			ops.append([k, p])
 		if rng.random() < 0.06:
@@ -288,6 +364,15 @@ def case_real(rng: random.Random, entry: Any, table: str, tags: list[str]) -> tu
 		ops.append(['childrenp', p])
 		ops.append(['parentp', p])
 		ops.append(['siblingsp', p])
+	inner = [p for p in paths if pf[p].has_child]
+	for p in rng.sample(inner, min(12, len(inner))):
+		ops.append(['expandp', p])
+		ops.append(['values', p])
+		ops.append(['groupby', p, str(rng.choice([-1, 1, 2, 3, 4]))])
+		ops.append(['expandsafe', p])
+	for p in rng.sample(paths, min(6, len(paths))):
+		ops.append(['expandp', p])
+		ops.append(['values', p])
 	for _ in range(10):
 		ops.append(['pluck', mutate_path(rng, rng.choice(paths), tags[:40])])
 	lines, real = [], []
@@ -302,6 +387,58 @@ def case_real(rng: random.Random, entry: Any, table: str, tags: list[str]) -> tu
 	return {'kind': 'real', 'root': entry.name, 'entries': len(pf)}, lines, real
 
 
+# ---------------------------------------------------------------------------------------------
+# corpus: the witnesses of the expand counterexample theorems (synthetic) and the real-grammar defect witness
+
+
+def load_corpus() -> dict[str, dict[str, Any]]:
+	import glob
+	import os
+	out: dict[str, dict[str, Any]] = {}
+	for f in sorted(glob.glob(os.path.join(common.CORPUS_DIR, PROP, '*.json'))):
+		with open(f, encoding='utf-8') as fh:
+			out[os.path.basename(f)[:-5]] = json.load(fh)
+	return out
+
+
+def nodes_of_dict(t: dict[str, Any], resolvable: list[str]) -> tuple[Any, Any, list[tuple[str, list[tuple[str, str]]]]]:
+	from rogw.tranp.syntax.ast.entry import EntryOfDict
+	from rogw.tranp.syntax.ast.query import Query
+	from rogw.tranp.syntax.node.node import Node
+	root = EntryOfDict(t)
+	table = [(tg, [(f'K{j}', 'always')]) for j, tg in enumerate(resolvable)]
+	di = make_di(root, table, ('T', 'always'))
+	return root, di.resolve(Query[Node]), table
+
+
+def stream_corpus(ctx: Ctx) -> Stream:
+	"""The committed witnesses of expand_prefix / expand_relativefy / expand_depth3 _counterexample, op by op."""
+	from rogw.tranp.syntax.ast.finder import ASTFinder
+	cases = []
+	for name, w in load_corpus().items():
+		if w.get('kind') != 'dict':
+			continue
+		root, nodes, table = nodes_of_dict(w['tree'], w['resolvable'])
+		finder = ASTFinder()
+		pf = finder.full_pathfy(root)
+		ops: list[list[str]] = [['tree', trees.dict_sexp(w['tree'])], table_line(table, ('T', 'always')).split('\t'), ['pathfy']]
+		for p in pf.keys():
+			ops += [['expandp', p], ['expand', p], ['expandsafe', p], ['values', p], ['groupby', p, '3'], ['groupby', p, '-1'], ['groupby', p, '1']]
+		lines, real = [], []
+		for op in ops:
+			lines.append('\t'.join(op))
+			if op[0] == 'tree':
+				real.append(f'ok {trees.entry_size(root)}')
+			elif op[0] == 'table':
+				real.append('ok')
+			else:
+				real.append(real_op(finder, nodes, root, pf, op, True))
+		cases.append(({'kind': 'corpus:' + name, 'entries': len(pf)}, lines, real))
+	st = common.correspond('tree-corpus', cases, 'tree', classify=lambda d: d['kind'])
+	st.note = 'witness trees of C10.expand_prefix_counterexample / expand_relativefy_counterexample / expand_depth3_counterexample: expand, expandp, expandsafe, values, groupby on every path'
+	return st
+
+
 def stream_random(ctx: Ctx) -> Stream:
 	rng = ctx.sub_rng('tree-random')
 	n = ctx.scale(120, 1500)
@@ -310,7 +447,7 @@ def stream_random(ctx: Ctx) -> Stream:
 		depth = 2 + (i % 4) if not ctx.thorough else 2 + (i % 5)
 		cases.append(case_random(rng, depth, 3 + (i % 4)))
 	st = common.correspond('tree-random', cases, 'tree', classify=lambda d: f"entries<{10 ** len(str(d['entries']))}")
-	st.note = 'EntryOfDict trees (repeated/unique/empty/prefix-sharing tags), synthetic node classes with path- and child-dependent match_feature, ops: pathfy, pluck (valid+mutated), id, exists, children, siblings, parent, ancestor, by, clear'
+	st.note = 'EntryOfDict trees (repeated/unique/empty/prefix-sharing tags), synthetic node classes with path- and child-dependent match_feature, ops: pathfy, pluck (valid+mutated), id, exists, children, siblings, parent, ancestor, by, expand, expandp, values, groupby (depths -2..5), expandsafe (the three side conditions of expand_spec), clear'
 	return st
 
 
@@ -330,7 +467,7 @@ def stream_real(ctx: Ctx) -> Stream:
 		for e in subs[:ctx.scale(6, 25)]:
 			cases.append(case_real(rng, e, table, tags))
 	st = common.correspond('tree-real', cases, 'tree', classify=lambda d: d['root'])
-	st.note = f'statement-level lark subtrees (8..400 entries) of {len(files)} real modules; ops: pathfy, pluck (valid+mutated), id, childrenp, parentp, siblingsp with the real symbol mapping as resolvable-tag set'
+	st.note = f'statement-level lark subtrees (8..400 entries) of {len(files)} real modules; ops: pathfy, pluck (valid+mutated), id, childrenp, parentp, siblingsp, expandp, values, groupby, expandsafe with the real symbol mapping as resolvable-tag set'
 	return st
 
 
@@ -541,6 +678,174 @@ def search_queries(ctx: Ctx) -> SearchResult:
 	return res
 
 
+def _levels_under(via: str, paths: list[str], depth: int) -> list[str]:
+	if depth == 0:
+		return []
+	n = len(via.split('.'))
+	return [p for p in paths if p == via or (p.startswith(via + '.') and (depth < 0 or len(p.split('.')) - n <= depth))]
+
+
+def _safe_from_walk(via: str, paths: list[str], has_child: Any, resolvable: Any) -> tuple[bool, bool]:
+	"""Independent (walk-only) versions of PrefixSafe and of a sufficient condition for RelativefySafe: the string `via`
+	does not occur again to the right of `via` in a terminal's path (then `origin.split(via)[1]` is the whole remainder)."""
+	under = _levels_under(via, paths, 3)
+	prefix_safe = True
+	for r in under:
+		if not resolvable(tag_of(r.split('.')[-1])):
+			continue
+		re_ = r.split('.')
+		for p in under:
+			if p.startswith(r) and p.split('.')[:len(re_)] != re_:
+				prefix_safe = False
+	rel_safe = all(via not in p[len(via):] for p in under[1:] if not has_child(p))
+	return prefix_safe, rel_safe
+
+
+def search_expand(ctx: Ctx) -> SearchResult:
+	"""expand / values / group_by of the real Nodes on random trees against the tree itself (document-order walk), on the
+	domain where C10.expand_spec(_full) says they agree; outside it the three latent hazards are only counted."""
+	from rogw.tranp.syntax.ast.entry import EntryOfDict
+
+	rng = ctx.sub_rng('expand')
+	res = SearchResult('expand / values / group_by of the real Nodes vs the tree (random trees; expand on the PrefixSafe+RelativefySafe domain)')
+	seen = set()
+	hist: dict[str, int] = {}
+
+	def bump(k: str) -> None:
+		hist[k] = hist.get(k, 0) + 1
+
+	# the witnesses of the counterexample theorems, replayed on the real Nodes (synthetic tag sets: latent, not findings)
+	for name, w in load_corpus().items():
+		if w.get('kind') != 'dict':
+			continue
+		_, nodes, _ = nodes_of_dict(w['tree'], w['resolvable'])
+		try:
+			got = [n.full_path for n in nodes.expand(w['via'])]
+		except Exception as e:  # noqa: BLE001
+			got = [exc_enum(e)]
+		res.samples.append({'latent_witness': name, 'theorem': w['lean_theorem'], 'real_expand': got, 'tree_says': w['tree_says'], 'reproduced_on_real_code': got != w['tree_says']})
+		bump('witness-reproduced' if got != w['tree_says'] else 'witness-not-reproduced')
+
+	for i in range(ctx.scale(70, 1200)):
+		t = trees.gen_dict_tree(rng, 2 + i % 5, 2 + i % 4)
+		root = EntryOfDict(t)
+		walk = trees.walk_entries(root)
+		paths = [p for p, _ in walk]
+		ents = dict(walk)
+		tags_all = ['root', '__empty__', *trees.TAG_POOL]
+		resolvable = [tg for tg in tags_all if rng.random() < (0.25 if i % 2 else 0.6)]
+		_, nodes, _ = nodes_of_dict(t, resolvable)
+		cache = nodes._Nodes__entries
+		has_child = lambda p: ents[p].has_child
+		is_res = lambda tg: tg in resolvable
+		inner = [p for p in paths if ents[p].has_child]
+		vias = [paths[0], *rng.sample(inner, min(6, len(inner))), *rng.sample(paths, min(2, len(paths)))]
+		bad = None
+		for via in vias:
+			try:
+				got = [n.full_path for n in nodes.expand(via)]
+				prefix_safe, rel_safe = _safe_from_walk(via, paths, has_child, is_res)
+				capped = ideal_expand(via, paths, has_child, is_res, 3)
+				full = ideal_expand(via, paths, has_child, is_res)
+				if prefix_safe and rel_safe:
+					bump('safe' if capped == full else 'safe-but-deeper-than-3')
+					if got != capped:
+						bad = f'expand({via}) = {got}, the tree (3 levels) says {capped}'
+				else:
+					bump('prefix-unsafe' if not prefix_safe else 'relativefy-unsafe')
+					if got != capped:
+						bump('unsafe-and-differs')
+				vals = nodes.values(via)
+				want_vals = [e.value for p, e in walk if (p == via or p.startswith(via + '.')) and e.value]
+				if bad is None and vals != want_vals:
+					bad = f'values({via}) = {vals}, document order says {want_vals}'
+				for d in (-1, 0, 1, 2, 3, 4):
+					keys = list(cache.group_by(via, d).keys())
+					if bad is None and keys != _levels_under(via, paths, d):
+						bad = f'group_by({via}, {d}) = {keys}, the tree says {_levels_under(via, paths, d)}'
+			except Exception as e:  # noqa: BLE001 - these calls succeed on every enumerated path
+				bad = f'real code raised {exc_enum(e)} in expand/values/group_by({via}): {str(e)[:160]}'
+			if bad:
+				break
+		res.cases += 1
+		seen.add(trees.dict_sexp(t))
+		if bad:
+			res.findings.append(Finding(key='expand-values-groupby-disagree-with-tree', what=bad, replay={'sexp': trees.dict_sexp(t), 'resolvable': resolvable}))
+			break
+	res.distinct = len(seen)
+	res.histogram = hist
+	res.note = 'latent_witness samples: synthetic tag sets on which the real expand departs from the tree exactly as the *_counterexample theorems say (not counted as findings)'
+	return res
+
+
+def _classify_expand_diff(via: str, got: list[str], full: list[str], capped: list[str]) -> str:
+	missing = [p for p in full if p not in got]
+	extra = [p for p in got if p not in full]
+	n = len(via.split('.'))
+	if got == capped and missing:
+		rel = missing[0].split('.')[n:]
+		return 'expand-depth:' + tag_of(via.split('.')[-1]) + '>' + '>'.join(tag_of(e) for e in rel)
+	if missing and not extra:
+		pairs = set()
+		for m in missing:
+			for r in got:
+				if m.startswith(r) and m.split('.')[:len(r.split('.'))] != r.split('.'):
+					pairs.add(f"{tag_of(r.split('.')[-1])}/{tag_of(m.split('.')[len(r.split('.')) - 1])}")
+		if pairs:
+			return 'expand-drops-sibling:' + sorted(pairs)[0]
+	return 'expand-disagrees-with-tree'
+
+
+def search_expand_real(ctx: Ctx) -> SearchResult:
+	"""Every entry path of real parse trees: Nodes.expand(via) (= Node._under_expand()) against the independent
+	"nearest resolvable descendants + terminals without a resolvable ancestor", with no depth cap."""
+	rng = ctx.sub_rng('expand-real')
+	res = SearchResult('Nodes.expand on real parse trees (real node classes) vs nearest-resolvable-descendants without depth cap')
+	sources: list[tuple[str, str]] = []
+	for name, w in load_corpus().items():
+		if w.get('kind') == 'source':
+			sources += [(f'corpus:{name}#{k}', src) for k, src in enumerate(w['sources'])]
+	for f in trees.real_source_files(ctx.thorough, rng, ctx.scale(3, 40)):
+		with open(f, encoding='utf-8') as fh:
+			sources.append((f, fh.read()))
+	seen_keys: set[str] = set()
+	hist: dict[str, int] = {}
+	limit = ctx.scale(500, 4000)
+	for name, src in sources:
+		app = common.MemApp(ctx.tmpdir())
+		try:
+			ep = app.entrypoint(src if src.endswith('\n') else src + '\n')
+		except Exception:  # noqa: BLE001 - outside tranp's grammar
+			continue
+		nodes = ep._Node__nodes
+		cache = nodes._Nodes__entries
+		resolver = nodes._Nodes__resolver
+		paths = [p for p, _ in trees.walk_entries(cache.by(ep.full_path))]
+		has_child = lambda p: cache.by(p).has_child
+		vias = paths if len(paths) <= limit else [paths[0], *rng.sample(paths, limit)]
+		for via in vias:
+			res.cases += 1
+			try:
+				got = [n.full_path for n in nodes.expand(via)]
+			except Exception as e:  # noqa: BLE001
+				got = [exc_enum(e)]
+			full = ideal_expand(via, paths, has_child, resolver.can_resolve)
+			if got == full:
+				continue
+			capped = ideal_expand(via, paths, has_child, resolver.can_resolve, 3)
+			key = _classify_expand_diff(via, got, full, capped)
+			hist[key] = hist.get(key, 0) + 1
+			if key not in seen_keys and len(seen_keys) < 8:
+				seen_keys.add(key)
+				res.findings.append(Finding(key=key, what=f'Nodes.expand({via}) = {got[:6]}, the tree says {full[:6]} (source {name})',
+					replay={'source_name': name, 'source': src[:4000], 'via': via, 'got': got, 'tree_says': full}))
+		if len(res.samples) < 2:
+			res.samples.append({'source': name, 'paths': len(paths), 'checked': len(vias)})
+	res.distinct = res.cases
+	res.histogram = hist
+	return res
+
+
 # ---------------------------------------------------------------------------------------------
 
 
@@ -566,6 +871,16 @@ STATEMENTS = {
 	'siblings_agree': 'Nodes.siblings(p) = Nodes.children(p without its last element) for every non-root enumerated p',
 	'siblings_root': 'Nodes.siblings(root) raises Errors.NodeNotFound',
 	'ancestor_nearest': 'Nodes.ancestor(p, tag) = the prefix of p ending at the nearest element (from the end, own element included) with that tag; ValueError when no element has it',
+	'subtree_enumeration': 'the enumeration of the subtree at an enumerated path is an order-preserving part of the enumeration of the whole tree',
+	'groupBy_depth': 'EntryCache.group_by(via, depth) for every depth != 0 = the pre-order enumeration of the subtree at via cut depth levels below via; the model fuel always suffices',
+	'groupBy_unbounded': 'group_by(via) with negative (unbounded) depth = the whole pre-order enumeration of the subtree at via',
+	'groupBy_zero': 'group_by(via, 0) = {}',
+	'values_document_order': 'Nodes.values(via) = the non-empty token values of the subtree at via in document order',
+	'expand_spec': 'Nodes.expand(via) (paths before resolution) = for each child subtree, three levels deep, the entry itself when its tag is resolvable or it is a terminal, else the same for its children — under the decidable side conditions PrefixSafe and RelativefySafe',
+	'expand_spec_full': 'with, in addition, nothing expandable deeper than three levels: expand(via) = nearest resolvable descendants + terminals without a resolvable ancestor below via (no depth cap)',
+	'expand_prefix_counterexample': '_counterexample: without PrefixSafe expand_spec is false — siblings list (resolvable) / list_comp: the sibling is dropped by path.startswith(cached) (real grammar shape: genuine finding expand-drops-sibling)',
+	'expand_relativefy_counterexample': '_counterexample: without RelativefySafe expand_spec is false — via r, terminal r.ar.t, a resolvable: origin.split(starts)[1] truncates the relative path (synthetic tags only: latent)',
+	'expand_depth3_counterexample': '_counterexample: three levels do not suffice in general — a resolvable entry four levels below via behind unresolvable tree entries is missed (not reachable in the real grammar as far as the search sees: latent)',
 	'resolve_order': 'for every World (tree, cache, class table, features) and every instance cache reachable by any sequence of successful Nodes.by resolutions, the class returned for p equals the cache-free first-accepting-class choice classOf',
 	'resolve_order_queries': 'the same for an explicit list of earlier Nodes.by queries (failing ones included) starting from the empty instance cache',
 }
@@ -574,9 +889,9 @@ STATEMENTS = {
 def run(ctx: Ctx) -> int:
 	proof = common.prove(ctx, PROP, leanchecker=ctx.thorough)
 	with ctx.timed('correspondence'):
-		streams = [stream_random(ctx), stream_real(ctx)]
+		streams = [stream_corpus(ctx), stream_random(ctx), stream_real(ctx)]
 	with ctx.timed('search'):
-		searches = [search_laws(ctx), search_queries(ctx), search_resolve_order(ctx)]
+		searches = [search_laws(ctx), search_queries(ctx), search_expand(ctx), search_expand_real(ctx), search_resolve_order(ctx)]
 	return common.finish(ctx, proof, streams, searches,
 		statements=STATEMENTS,
 		partial={
@@ -584,14 +899,18 @@ def run(ctx: Ctx) -> int:
 				'pathfyS_encoded, keys_nodup, fullPathfy_encoded, countS, pluckS_pathfyS on the strings, through codec_int/elem/path/inj); '
 				'ids follow document order (ids_preorder, cache_by); children / parent / siblings / ancestor agree with the tree and with each other '
 				'(children_agree, children_entries, parent_nearest, parent_of_child, siblings_agree, siblings_root, ancestor_nearest — on the path lists before class resolution); '
+				'group_by for every depth, values (subtree_enumeration, groupBy_depth/unbounded/zero, values_document_order); '
+				'expand agrees with the tree under PrefixSafe + RelativefySafe (expand_spec, expand_spec_full) and provably not without them / beyond three levels '
+				'(expand_prefix_counterexample, expand_relativefy_counterexample, expand_depth3_counterexample); '
 				'the node class is independent of earlier queries (resolve_order, resolve_order_queries) — all on the model, for all trees / worlds',
 			'correspondence_only': 'the real match_feature functions are pure functions of (tree, path) — validated by query permutations on real modules; '
-				'Nodes.expand and the node-instance memoisation inside Nodes are not modelled',
-			'search_only': 'none',
+				'the node-instance memoisation inside Nodes (Memoize) is not modelled (every op is a function of the tree and the table)',
+			'search_only': 'that no expandable entry of a real parse tree lies deeper than three levels below its node, and that PrefixSafe holds on real parse trees except for the list/list_comp and dict/dict_comp sibling shapes (finding expand-drops-sibling)',
 		},
 		assumptions=[
 			'tags are non-empty and free of ".", "[" and "]" (true of every lark rule/terminal name and of __empty__)',
 			"int() spellings other than ASCII digits with optional '-' are outside the model and never generated",
+			'expand_spec: PrefixSafe (a resolvable path is a string prefix of another path among group_by(via, 3) only if it is an element-wise prefix) and RelativefySafe (relativefy(via) yields the true relative tags for the terminals below via); both decidable and re-computed on the real objects by the expandsafe op',
 		],
 		trusted=['EntryOfDict/EntryOfLark expose the tree faithfully (C15 covers the lark side)'])
 
